@@ -26,4 +26,34 @@ let () =
           | M.Cycle r -> List [Atom "cycle"; of_list of_nat r]
           | M.OutOfFuel -> List [Atom "out-of-fuel"] in
         List [m; of_bool (M.c20_kahn_ok order deps res)]
-    | _ -> failwith "c20-kahn: bad case")
+    | _ -> failwith "c20-kahn: bad case");
+  let kres = function
+    | M.Ok l -> List [Atom "ok"; of_list of_nat l]
+    | M.Cycle r -> List [Atom "cycle"; of_list of_nat r]
+    | M.OutOfFuel -> List [Atom "out-of-fuel"] in
+  Registry.register "hist" (fun s ->
+    (* ((ops (n i) | (d a b) | (r)) (outs res ...)) *)
+    match list s with
+    | [ops; outs] ->
+        let op o = match list o with
+          | [Atom "n"; i] -> M.AddNode (nat_ i)
+          | [Atom "d"; a; b] -> M.AddDep (nat_ a, nat_ b)
+          | [Atom "r"] -> M.Resolve
+          | _ -> failwith "c20-hist: bad op" in
+        let ops = List.map op (list ops) in
+        let outs = list_ (opt_ (list_ nat_)) outs in
+        List [of_list kres (M.c20_hist ops); of_bool (M.c20_hist_ok ops outs)]
+    | _ -> failwith "c20-hist: bad case");
+  Registry.register "ghist" (fun s ->
+    (* ((ops (d a b) | (ds a (..)) | (s (..))) (outs (..) ...)) *)
+    match list s with
+    | [ops; outs] ->
+        let op o = match list o with
+          | [Atom "d"; a; b] -> M.GDep (nat_ a, nat_ b)
+          | [Atom "ds"; a; l] -> M.GDeps (nat_ a, list_ nat_ l)
+          | [Atom "s"; l] -> M.GSort (list_ nat_ l)
+          | _ -> failwith "c20-ghist: bad op" in
+        let ops = List.map op (list ops) in
+        let outs = list_ (list_ nat_) outs in
+        List [of_list (of_opt (of_list of_nat)) (M.c20_ghist ops); of_bool (M.c20_ghist_ok ops outs)]
+    | _ -> failwith "c20-ghist: bad case")
